@@ -155,7 +155,7 @@ def run(ctx):
             R.ob(mentions(a, nm), "WIRE", c.where(), "WIRE|drain|%s" % nm, "drained transaction executes with %s = `%s`" % (nm, show(a)[:60]))
     ER.clause_park_rows_together(R, F)
     # finalise always clears the pool
-    fin = [g for g in F.fns.values() if g.name.startswith("engine::engine::BRC20ProgEngine::finalise_block") and any((c.method or "") == "clear_txpool" for c in g.calls())]
+    fin = ER.operation_bodies_calling(F, "finalise_block", "clear_txpool")
     R.ob(bool(fin) and all(must_pass_on_success(g, [c.bb for c in g.calls() if (c.method or "") == "clear_txpool"]) for g in fin), "DOM-all",
          "engine", "DOM-all|finalise|clear_txpool", "finalise_block does not always clear expired pool entries",
          sample={"rule": "DOM-all", "fn": "finalise_block", "step": "clear_txpool"})
